@@ -124,6 +124,23 @@ def _guard_check(ctx, R, fi, idname, flags, read_pred, sink_desc):
         else:
             out.append(ctx.viol(R, fi, rn.ast, f"a path from the read of the state point file reaches {sink_desc} without comparing calc_id(data) with {idname}",
                                 witness=cfg.describe_path(w) if w else None))
+    # every *use* of the data (other than the comparison itself) comes after the guard: unvalidated content must not reach the in-memory state point,
+    # the cache or the caller before it is known to belong to this id
+    if guards:
+        for n in cfg.stmt_nodes():
+            if n in read_nodes or n.id in guard_ids or n.kind not in ("stmt", "test"):
+                continue
+            used = [x for sub in _own(n.ast) for x in walk_no_nested(sub) if isinstance(x, ast.Name) and x.id in datavars and isinstance(x.ctx, ast.Load)]
+            # computing the hash of the data is part of the comparison, not a use
+            hashed_args = {id(a) for sub in _own(n.ast) for c in walk_no_nested(sub) if isinstance(c, ast.Call) and (dotted(c.func) or "").split(".")[-1] == "calc_id" for a in c.args}
+            used = [x for x in used if id(x) not in hashed_args]
+            if not used:
+                continue
+            w = cfg.must_pass_before(n.id, guard_ids, kinds="n")
+            if w is not None:
+                out.append(ctx.viol(R, fi, n.ast, f"`{stmt_key(n.ast, 50)}` uses the content of the state point file before it was compared with {idname}: a file holding another (valid JSON) "
+                                    "state point still raises JobsCorruptedError, but its content has already replaced the handle's in-memory state point, so the recovery paths "
+                                    "(init(force=True), repair()) write the foreign state point back", witness=cfg.describe_path(w), construct=f"{fi.qual}|use-before-guard"))
     return out
 
 
@@ -304,14 +321,25 @@ def c09_b(ctx: Ctx):
     loops = [n for n in body_nodes(fi) if isinstance(n, ast.For)]
     target = None
     for lp in loops:
-        if isinstance(lp.iter, ast.Call):
-            tq = common.targets_of(ctx, fi, lp.iter)
+        it = common.inline_at(ctx, fi, lp.iter, lp)
+        if isinstance(it, ast.Call) and isinstance(it.func, ast.Name) and it.func.id in ("list", "sorted", "tuple", "iter") and len(it.args) == 1:
+            it = it.args[0]
+        if isinstance(it, ast.Call):
+            tq = common.targets_of(ctx, fi, it)
             if any(q in ("signac.project:Project._find_job_ids", "signac.project:Project._job_dirs") for q in tq):
-                if lp.iter.args or lp.iter.keywords:
+                if it.args or it.keywords:
                     out.append(ctx.viol(R, fi, lp, "check() iterates a filtered selection of jobs, not the whole directory listing"))
                 target = lp
                 break
     if target is None:
+        # positive pattern: the reader is handed to a map()-like bulk call - such a call re-raises exactly one worker exception
+        bulk = [c for c in body_nodes(fi) if isinstance(c, ast.Call) and isinstance(c.func, ast.Attribute) and c.func.attr in ("map", "imap", "imap_unordered", "starmap", "map_async")
+                and c.args and isinstance(c.args[0], ast.Attribute) and c.args[0].attr in ("_get_statepoint_from_workspace", "_get_statepoint")]
+        bulk += [c for c in body_nodes(fi) if isinstance(c, ast.Call) and isinstance(c.func, ast.Name) and c.func.id == "map"
+                 and c.args and isinstance(c.args[0], ast.Attribute) and c.args[0].attr in ("_get_statepoint_from_workspace", "_get_statepoint")]
+        if bulk:
+            return out + [ctx.viol(R, fi, bulk[0], f"check() validates all jobs through one bulk call ({canon(bulk[0])[:60]}): the call stops at / re-raises a single JobsCorruptedError, "
+                                   "so with several damaged jobs only one of them is reported", construct=CHECK + "|per-job-try")]
         return out + [ctx.inc(R, fi, fi.node, "no loop over the job directory listing found in check()")]
     out.append(ctx.ok(R, fi, target, "check() iterates the directory listing (_find_job_ids() without filter)"))
     reads = []
@@ -417,6 +445,17 @@ def c09_c(ctx: Ctx):
                                 "the first such job aborts the repair of all later jobs", construct=REPAIR + "|escape:" + short))
         else:
             out.append(ctx.ok(R, fi, lp, f"{short} from the state point lookup is handled inside the loop body", construct=REPAIR + "|escape:" + short))
+    # the look-up consults the cache first: a readable but foreign state point file must not take precedence over what the cache knows about this id
+    direct = [c for st in lp.body for c in ast.walk(st) if isinstance(c, ast.Call) and WSREAD in common.targets_of(ctx, fi, c)]
+    viaget = [c for st in lp.body for c in ast.walk(st) if isinstance(c, ast.Call) and GETSP in common.targets_of(ctx, fi, c)]
+    kq = REPAIR + "|lookup-order"
+    if direct:
+        out.append(ctx.viol(R, fi, direct[0], "repair() reads the state point file directly (unvalidated) instead of going through the cache-first look-up: a state point file that was "
+                            "replaced by another valid JSON object is trusted although the cache knows the real state point, and the job directory is renamed to the foreign id", construct=kq))
+    elif viaget:
+        out.append(ctx.ok(R, fi, viaget[0], "repair() looks the state point up through _get_statepoint (cache first, file only on a cache miss)", construct=kq))
+    else:
+        out.append(ctx.inc(R, fi, lp, "repair(): no state point look-up found in the loop", construct=kq))
     # init() calls in the loop must be survived
     pm = ctx.parents(fi)
     n_init = 0
@@ -488,4 +527,11 @@ def c09_e(ctx: Ctx):
     return sentinel_discipline(ctx, "C09-e", [("signac.project:Project.repair", "job_ids", "an empty selection must repair nothing; treated as 'not given' every job of the workspace is re-initialised / renamed")])
 
 
-RULES = [c09_a, c09_b, c09_c, c09_d, c09_e]
+@rule("C09-f")
+def c09_f(ctx: Ctx):
+    """Per-job / per-entry loops are independent: nothing read in one iteration was computed in another."""
+    from .lints import per_item_loops
+    return per_item_loops(ctx, "C09-f", [('signac.project:Project.check', 'a job is judged by the result computed for the previous job: damaged jobs are missed or intact ones reported'), ('signac.project:Project.repair', 'a job is repaired with the state point looked up for the previous job')])
+
+
+RULES = [c09_a, c09_b, c09_c, c09_d, c09_e, c09_f]
